@@ -101,9 +101,12 @@ def kron(first, second):
             raise IncompatibleTypes(
                 'Incompatible data types (make sure both are either TT-matrices or TT-tensors).')
 
-        # concatenate the result
-        cores_new = [c.clone() for c in first.cores] + [c.clone()
-                                                        for c in second.cores]
+        # concatenate the result (common dtype for all the cores)
+        dtype = None
+        for c in first.cores + second.cores:
+            dtype = c.dtype if dtype is None else tn.promote_types(dtype, c.dtype)
+        cores_new = [c.clone().to(dtype) for c in first.cores] + [c.clone().to(dtype)
+                                                                  for c in second.cores]
         result = torchtt._tt_base.TT(cores_new)
     else:
         raise InvalidArguments('Invalid arguments.')
